@@ -32,3 +32,6 @@ func (s *Server) VerifHandleFileTransfer(ctx context.Context, rwc io.ReadWriter,
 
 // VerifRateLimiterCount returns the number of per-address rate limiters the server holds.
 func (s *Server) VerifRateLimiterCount() int { return len(s.rateLimiters) }
+
+// VerifRegisterWithTrackers runs the tracker registration loop (never returns).
+func (s *Server) VerifRegisterWithTrackers(ctx context.Context) { s.registerWithTrackers(ctx) }
